@@ -47,6 +47,7 @@ def blocked_fn(rule, arg):
     if rule == 'parity': return lambda t: sum(t) % 2 == 1
     if rule == 'size': return lambda t: len(t) == arg
     if rule == 'has': return lambda t: arg in t
+    if rule == 'mask': return lambda t: sum(1 << x for x in t) == arg
     return lambda t: False
 
 
@@ -55,7 +56,16 @@ def gen_case(rng, incremental):
     lines = ['gv %d %d' % kv for kv in sorted(vs.items())] + ['ge %d %d %d' % (a, b, w) for (a, b), w in sorted(es.items(), key=lambda x: rng.random())]
     for _ in range(rng.randrange(1, 4)): lines.append('expand %d' % rng.choice([0, 1, 2, 2, 3, 4, 5]))
     for _ in range(rng.randrange(1, 3)):
-        rule = rng.choice(['none', 'parity', 'size', 'has']); arg = rng.choice([3, 4]) if rule == 'size' else rng.choice(sorted(vs))
+        rule = rng.choice(['none', 'parity', 'size', 'has', 'mask', 'mask']); arg = rng.choice([3, 4]) if rule == 'size' else rng.choice(sorted(vs))
+        if rule == 'mask':
+            # block exactly one clique of the graph with at least 3 vertices (a facet in the middle of a larger clique when there is one)
+            cl = [t for t in cliques(vs, es, None) if len(t) >= 3]
+            big = [t for t in cl if len(t) >= 4]
+            if big and rng.random() < 0.7:
+                t = rng.choice(big); i = rng.randrange(len(t)); t = t[:i] + t[i + 1:]
+            elif cl: t = rng.choice(cl)
+            else: t = tuple(sorted(vs))[:3]
+            arg = sum(1 << x for x in t)
         lines.append('expandb %d %s %d' % (rng.choice([0, 1, 2, 3, 4, 5]), rule, arg))
     if incremental:
         d = rng.choice([-1, 1, 2, 3, 3])
@@ -151,8 +161,9 @@ def run(ctx):
     for mask in range(1, 1 << len(pairs)):
         chosen = [p for i, p in enumerate(pairs) if mask >> i & 1]
         for ws in itertools.product((1, 2), repeat=len(chosen)):
-            if len(chosen) > (4 if not thorough else 6) : continue
+            if len(chosen) > (4 if not thorough else 6) and any(w != ws[0] for w in ws): continue      # dense graphs: constant weights only in the quick tier
             c = ['gv %d 0' % v for v in range(4)] + ['ge %d %d %d' % (a, b, w) for (a, b), w in zip(chosen, ws)] + ['expand 3', 'expandb 3 none 0', 'expandb 3 parity 0']
+            if len(chosen) >= 5: c += ['expandb 3 mask %d' % m for m in (7, 11, 13, 14)]           # block exactly one triangle of {0,1,2,3}
             for v in range(4): c.append('edge %d %d 0 3' % (v, v))
             for (a, b), w in sorted(zip(chosen, ws), key=lambda x: x[1]): c.append('edge %d %d %d 3' % (a, b, w))
             c.append('cplx'); ex.append(c)
